@@ -169,34 +169,38 @@ def multiaxis_factory(itp, args, kwargs):
 
 
 def mk_axes(axes, name='Axes'):
-    """list-like Axes: positional and by-name lookup, list mutators"""
+    """Axes: the repository's class (append with its duplicate-name test, __getitem__ / __setitem__ by position or name, insert, pop, sort ...) interpreted on an
+    object whose storage is a plain list; the list primitives the class calls (list.append(self, ax), list.__getitem__(self, k) ...) act on that storage"""
     box = Obj(name, types=('Axes', 'AbstractAxes', 'list'), attrs={})
     box.attrs['_list'] = list(axes)
+    P = P_HOLDER[0] if P_HOLDER else None
+    if P is not None:
+        box.hooks['overrides'] = shared_std(P)
+    ci = P.classes.get(AXES) if P is not None else None
 
-    def pos_of(o, i):
-        lst = o.attrs['_list']
-        if isinstance(i, bool):
-            raise Raised('TypeError')
-        if isinstance(i, int):
-            if not -len(lst) <= i < len(lst):
-                raise Raised('IndexError')
-            return i
-        if isinstance(i, str):
-            for k, a in enumerate(lst):
-                if a.attrs.get('name') == i:
-                    return k
-            raise Raised('ValueError')
-        raise Raised('TypeError')
+    def repo_method(itp, o, mname):
+        m = P.lookup(ci, mname) if ci is not None else None
+        r = P.resolve_member(m) if m is not None else None
+        if r is None or r[0] != 'func':
+            return None
+        fi = r[1]
+        return Bound(Fn(fi.node, None, module_glob(P, fi.module, o.hooks.get('overrides') or shared_std(P)), fi.name), o)
 
     def getitem(itp, o, i):
-        if isinstance(i, slice):
-            return mk_axes(o.attrs['_list'][i])
-        return o.attrs['_list'][pos_of(o, i)]
+        f = repo_method(itp, o, '__getitem__')
+        if f is None:
+            try:
+                return o.attrs['_list'][i]
+            except Exception as e:
+                itp.pyerr(e)
+        return itp.apply(f, [i], {})
 
     def setitem(itp, o, i, v):
-        if not (isinstance(v, Obj) and 'Axis' in v.types):
-            raise Raised('TypeError')
-        o.attrs['_list'][pos_of(o, i)] = v
+        f = repo_method(itp, o, '__setitem__')
+        if f is None:
+            o.attrs['_list'][i] = v
+            return None
+        return itp.apply(f, [i, v], {})
     box.hooks['getitem'] = getitem
     box.hooks['setitem'] = setitem
     box.hooks['iter'] = lambda itp, o: list(o.attrs['_list'])
@@ -205,33 +209,36 @@ def mk_axes(axes, name='Axes'):
     box.hooks['eq'] = lambda itp, o, other: isinstance(other, Obj) and 'Axes' in other.types and len(other.attrs['_list']) == len(o.attrs['_list']) and \
         all(itp._eq(x, y) for x, y in zip(o.attrs['_list'], other.attrs['_list']))
     box.methods['copy'] = lambda itp, o, a, k: mk_axes([x.methods['copy'](itp, x, [], {}) for x in o.attrs['_list']])
+    inner = class_methods(P, AXES, skip=('copy',)) if P is not None else None
 
-    def need_axis(v):
-        if not (isinstance(v, Obj) and 'Axis' in v.types):
-            raise Raised('TypeError')
-        return v
-    box.methods['append'] = lambda itp, o, a, k: o.attrs['_list'].append(need_axis(a[0]))
-    box.methods['insert'] = lambda itp, o, a, k: o.attrs['_list'].insert(a[0], need_axis(a[1]))
-    box.methods['remove'] = lambda itp, o, a, k: o.attrs['_list'].remove(a[0]) if a[0] in o.attrs['_list'] else (_ for _ in ()).throw(Raised('ValueError'))
-    box.methods['pop'] = lambda itp, o, a, k: o.attrs['_list'].pop(*a)
-    box.methods['index'] = lambda itp, o, a, k: pos_of(o, a[0]) if not isinstance(a[0], Obj) else o.attrs['_list'].index(a[0])
-    if P_HOLDER:
-        box.hooks['getattr'] = class_methods(P_HOLDER[0], AXES, skip=('copy', 'append', 'insert', 'remove', 'pop', 'index', '__getitem__', '__setitem__'))
+    def hook(itp, o, attr):
+        r = inner(itp, o, attr) if inner is not None else KeyError
+        if r is not KeyError:
+            return r
+        if hasattr(list, attr) and not attr.startswith('__'):
+            def raw(itp_, a, k, attr=attr):
+                try:
+                    return getattr(o.attrs['_list'], attr)(*a, **k)
+                except Exception as e:
+                    itp_.pyerr(e)
+            return raw
+        return KeyError
+    box.hooks['getattr'] = hook
     return box
 
 
 def axes_factory(itp, args, kwargs):
-    """Axes(list of Axis | (name, labels) pairs)"""
-    items = itp.iterate(args[0]) if args else []
-    out = []
-    for it in items:
-        if isinstance(it, Obj) and 'Axis' in it.types:
-            out.append(it)
-        elif isinstance(it, (tuple, list)) and len(it) == 2:
-            out.append(axis_factory(itp, [it[1], it[0]], {}))
-        else:
-            raise Raised('TypeError')
-    return mk_axes(out)
+    """Axes(...): the repository's Axes.__init__ interpreted on an empty Axes object"""
+    box = mk_axes([])
+    P = P_HOLDER[0] if P_HOLDER else None
+    ci = P.classes.get(AXES) if P is not None else None
+    m = P.lookup(ci, '__init__') if ci is not None else None
+    r = P.resolve_member(m) if m is not None else None
+    if r is None or r[0] != 'func':
+        raise Undecided('Axes.__init__ not found')
+    fi = r[1]
+    itp.call_fn(Fn(fi.node, None, module_glob(P, fi.module, shared_std(P)), fi.name), [box] + list(args), dict(kwargs))
+    return box
 
 
 def mk_values(name, shape):
@@ -240,6 +247,11 @@ def mk_values(name, shape):
     for m in ('transpose', 'reshape', 'take', 'repeat', 'squeeze', 'swapaxes', 'copy', 'astype', 'ravel', 'compress'):
         v.methods[m] = (lambda m_: lambda itp, o, a, k: Sym('call', '%s.%s' % (o.name, m_), tuple(a), dict(k)))(m)
     v.hooks['getitem'] = lambda itp, o, i: Sym('sub', o, i)
+
+    def fill(itp, o, a, k):
+        o.name = '%s.filled(%s)' % (o.name, render(a[0]))
+    v.methods['fill'] = fill
+    v.hooks['render'] = lambda o: o.name
     return v
 
 
@@ -356,6 +368,12 @@ def conc(data, kind=None, shape=None):
     a.methods['tolist'] = lambda itp, o, aa, k: _c.deepcopy(o.attrs['_data'])
     a.methods['copy'] = lambda itp, o, aa, k: conc(o.attrs['_data'], o.attrs['dtype'].attrs['kind'], o.attrs['shape'])
     a.methods['astype'] = lambda itp, o, aa, k: conc(o.attrs['_data'], kind_char(aa[0] if aa else k.get('dtype')), o.attrs['shape'])
+
+    def fill(itp, o, aa, k):
+        def rec(d):
+            return [rec(x) if isinstance(x, list) else aa[0] for x in d]
+        o.attrs['_data'] = rec(o.attrs['_data']) if isinstance(o.attrs['_data'], list) else aa[0]
+    a.methods['fill'] = fill
 
     def getattr_hook(itp, o, attr):
         if attr == 'T':
@@ -480,8 +498,11 @@ def mk_np():
             if not any(isinstance(y, list) for y in rows):
                 return conc(rows, kind_char(dt))
             raise Raised('ValueError')
-        return asarray(itp, o, a, k)
+        if isinstance(x, Obj) and 'ndarray' in x.types and '_data' not in x.attrs and all(kk in ('dtype', 'copy') for kk in k) and len(a) == 1 and k.get('copy', True) is True:
+            return mk_values('copy(%s)' % x.name if k.get('dtype') is None else 'copy(%s.astype(%s))' % (x.name, render(k['dtype'])), x.attrs['shape'])
+        return asarray(itp, o, a, dict((kk, vv) for kk, vv in k.items() if kk != 'copy' or vv is not True))
     np.methods['array'] = array
+    np.methods['dtype'] = lambda itp, o, a, k: a[0] if isinstance(a[0], TypeV) else Sym('call', 'np.dtype', tuple(a), dict(k))
 
     def empty(itp, o, a, k):
         shape = a[0] if a else k.get('shape')
@@ -536,8 +557,12 @@ def mk_np():
         if isinstance(x, Obj) and '_data' in x.attrs:
             dt = k.get('dtype', a[1] if len(a) > 1 else None)
             return x if dt is None else conc(x.attrs['_data'], kind_char(dt), x.attrs['shape'])
-        if isinstance(x, Obj) and 'ndarray' in x.types and not k and len(a) == 1:
-            return x
+        if isinstance(x, Obj) and 'DimArray' in x.types and 'values' in x.attrs and len(a) == 1:
+            return asarray(itp, o, [x.attrs['values']], k)             # __array__: the values of the array
+        if isinstance(x, Obj) and 'ndarray' in x.types and len(a) == 1 and all(kk == 'dtype' for kk in k):
+            if k.get('dtype') is None:
+                return x
+            return mk_values('%s.astype(%s)' % (x.name, render(k['dtype'])), x.attrs['shape'])
         if isinstance(x, Obj) and 'Axis' in x.types and not k and len(a) == 1:
             lab = x.attrs['values']
             return asarray(itp, o, [lab], {}) if isinstance(lab, list) else mk_values(render(lab), [x.attrs['size']])
@@ -581,6 +606,17 @@ def has_abstract_in(xs):
     return any(isinstance(x, (Sym, Obj)) for x in xs)
 
 
+_SHARED = {}
+
+
+def shared_std(P):
+    """one never-modified set of the standard overrides per loaded program (what the methods of abstract Axis / Axes objects are interpreted with)"""
+    if id(P) not in _SHARED:
+        _SHARED.clear()
+        _SHARED[id(P)] = std_overrides(P)
+    return _SHARED[id(P)]
+
+
 def std_overrides(P):
     ov = {}
     axes_t = TypeV('Axes', ctor=axes_factory)
@@ -591,7 +627,9 @@ def std_overrides(P):
 
 
 def _std(P):
-    return {'Axis': TypeV('Axis', ctor=axis_factory), 'MultiAxis': TypeV('MultiAxis', bases=('Axis',), ctor=multiaxis_factory), 'Axes': TypeV('Axes', ctor=axes_factory),
+    axis_t = TypeV('Axis', ctor=axis_factory)
+    axis_t.getattr = class_attrs(P, AXIS, lambda: shared_std(P))
+    return {'Axis': axis_t, 'MultiAxis': TypeV('MultiAxis', bases=('Axis',), ctor=multiaxis_factory), 'Axes': TypeV('Axes', ctor=axes_factory),
             'np': mk_np(), 'numpy': mk_np()}
 
 
@@ -1508,6 +1546,130 @@ def sc_align(P):
     return out
 
 
+def live_dims(obj):
+    """make obj.dims follow the names of its (possibly shared) Axis objects instead of being a snapshot"""
+    obj.attrs.pop('dims', None)
+    inner = obj.hooks.get('getattr')
+
+    def hook(itp, o, attr):
+        if attr == 'dims':
+            return tuple(a.attrs['name'] for a in itp.iterate(o.attrs['axes']))
+        return inner(itp, o, attr) if inner is not None else KeyError
+    obj.hooks['getattr'] = hook
+    return obj
+
+
+def sc_set_dims(P, which):
+    """a.dims = ... (AbstractHasAxes._set_dims) and ds.dims = ... (Dataset.dims setter): the names of the Axis objects afterwards, as the array / every variable sees them"""
+    def gen(P):
+        out = []
+
+        def case(label, newdims):
+            def mk():
+                if which == 'dataset':
+                    vs = {'a': var_stub('A', ('x',)), 'b': var_stub('B', ('x', 'y')), 'c': var_stub('C', ('y', 'z'))}
+                    obj = mk_dataset(P, vs)
+                    for v in vs.values():
+                        live_dims(v)
+                        v.hooks['render'] = lambda o: '%s%s' % (o.name, [a.attrs['name'] for a in o.attrs['axes'].attrs['_list']])
+                else:
+                    obj = live_dims(mk_array(P, 'A', ('x', 'y', 'z'), (3, 2, 4), overrides=std_overrides(P)))
+                nd = newdims() if callable(newdims) else newdims
+                return ([obj, nd], {}, {'overrides': ds_overrides(P) if which == 'dataset' else std_overrides(P), 'post': lambda itp, r, obj=obj: 'afterwards %s' % render(obj)})
+            out.append((label, mk))
+        case('all names, tuple', ('u', 'v', 'w'))
+        case('all names, list', ['u', 'v', 'w'])
+        case('swap the first two', ('y', 'x', 'z'))
+        case('rotate', ('y', 'z', 'x'))
+        case('same names', ('x', 'y', 'z'))
+        case('too few names', ('u', 'v'))
+        case('too many names', ('u', 'v', 'w', 't'))
+        case('duplicate new names', ('u', 'u', 'w'))
+        case('not iterable', 3)
+        case('a name that is not a string', ('u', 1, 'w'))
+        case('an empty name', ('u', '', 'w'))
+        if which == 'array':
+            case('dict: one dimension', {'x': 'u'})
+            case('dict: swap', {'x': 'y', 'y': 'x'})
+            case('dict: chain', {'x': 'y', 'y': 'z', 'z': 'x'})
+            case('dict: collides with an untouched dimension', {'x': 'y'})
+            case('dict: two dimensions onto one new name', {'x': 'u', 'y': 'u'})
+            case('dict: unknown dimension', {'q': 'u'})
+            case('dict: empty', {})
+        return out
+    return gen
+
+
+def sc_dimarray_init(P):
+    """DimArray.__init__ on the argument forms of the documentation: what is stored (values, axes, attrs) or that the call is refused"""
+    out = []
+
+    def ov():
+        o = std_overrides(P)
+        o['get_option'] = lambda itp, a, k: Sym('call', 'get_option', tuple(a), {})
+        o['warnings'] = Obj('warnings', attrs={}, methods={'warn': lambda itp, ob, a, k: None})
+        return o
+
+    def fresh():
+        o = ov()
+        me = Obj('SELF', types=('DimArray', 'AbstractDimArray', 'AbstractHasAxes'), attrs={'_order': None})
+        me.hooks['overrides'] = o
+        me.hooks['getattr'] = class_methods(P, DA)
+        me.hooks['render'] = lambda ob: 'DimArray(values=%s, axes=%s, attrs=%s, indexing=%s/%s)' % tuple(render(ob.attrs.get(k, '<unset>')) for k in ('_values', '_axes', '_attrs', '_indexing', '_indexing_broadcast'))
+        return me, o
+
+    def case(label, args, kwargs=None):
+        def mk():
+            me, o = fresh()
+            a = args() if callable(args) else args
+            k = kwargs() if callable(kwargs) else (kwargs or {})
+            return ([me] + list(a), dict(k), {'overrides': o, 'oracle': label_oracle, 'post': lambda itp, r, me=me: render(me)})
+        out.append((label, mk))
+    V = lambda *shape: mk_values('V', shape)
+    AXS = lambda: [mk_axis('x', 2), mk_axis('y', 3)]
+    case('values only, 2-d', lambda: [V(2, 3)])
+    case('values only, 0-d', lambda: [V()])
+    case('values and Axis objects', lambda: [V(2, 3), AXS()])
+    case('values and an Axes object', lambda: [V(2, 3), mk_axes(AXS())])
+    case('values and (name, labels) pairs', lambda: [V(2, 3), [('x', [10, 20]), ('y', ['u', 'v', 'w'])]])
+    case('values and label lists with dims', lambda: [V(2, 3)], lambda: {'axes': [[10, 20], ['u', 'v', 'w']], 'dims': ['x', 'y']})
+    case('values with dims only', lambda: [V(2, 3)], {'dims': ['x', 'y']})
+    case('values with labels only', lambda: [V(2, 3)], lambda: {'labels': [[10, 20], ['u', 'v', 'w']]})
+    case('values with dims and labels', lambda: [V(2, 3)], lambda: {'dims': ['x', 'y'], 'labels': [[10, 20], ['u', 'v', 'w']]})
+    case('axes only', lambda: [], lambda: {'axes': [('x', [10, 20]), ('y', ['u', 'v', 'w'])]})
+    case('axes only, dtype=int', lambda: [], lambda: {'axes': [('x', [10, 20])], 'dtype': TypeV('int')})
+    case('neither values nor axes', lambda: [])
+    case('Axis objects of the wrong sizes', lambda: [V(3, 2), AXS()])
+    case('one Axis of the wrong size', lambda: [V(2, 4), AXS()])
+    case('fewer Axis objects than dimensions', lambda: [V(2, 3), AXS()[:1]])
+    case('more Axis objects than dimensions', lambda: [V(2,), AXS()])
+    case('an Axes object of the wrong sizes', lambda: [V(3, 2), mk_axes(AXS())])
+    case('an Axes object with fewer axes', lambda: [V(2, 3), mk_axes(AXS()[:1])])
+    case('label lists of the wrong length', lambda: [V(2, 3)], lambda: {'axes': [[10, 20, 30], ['u', 'v', 'w']], 'dims': ['x', 'y']})
+    case('too many dims', lambda: [V(2, 3)], {'dims': ['x', 'y', 'z']})
+    case('duplicate dims', lambda: [V(2, 3)], {'dims': ['x', 'x']})
+    case('duplicate Axis names', lambda: [V(2, 2), [mk_axis('x', 2), mk_axis('x', 2)]])
+    case('metadata keywords', lambda: [V(2, 3)], {'units': 'm', 'name': 'test'})
+    def src(spec):
+        a = arr_of(P, 'A', spec)
+        a.attrs['attrs'] = {'long_name': 'T', 'units': 'K'}
+        return a
+    case('from a DimArray', lambda: [src([('x', 2), ('y', 3)])])
+    case('from a DimArray with other axes', lambda: [src([('x', 2), ('y', 3)]), [mk_axis('u', 2), mk_axis('v', 3)]])
+    case('from a DimArray with metadata keywords', lambda: [src([('x', 2)])], {'units': 'm'})
+    def mk_src_after():
+        me, o = fresh()
+        a = src([('x', 2)])
+        return ([me, a], {'units': 'm'}, {'overrides': o, 'oracle': label_oracle, 'post': lambda itp, r: 'new: %s; source attrs afterwards: %s' % (render(me.attrs.get('_attrs')), render(a.attrs['attrs']))})
+    out.append(('from a DimArray, metadata of the source afterwards', mk_src_after))
+    case('explicit indexing options', lambda: [V(2, 3)], {'_indexing': 'position', '_indexing_broadcast': False})
+    case('copy=True', lambda: [V(2, 3)], {'copy': True})
+    case('a nested list', lambda: [[[1, 2, 3], [4, 5, 6]]])
+    case('a nested list and pairs', lambda: [[[1, 2, 3], [4, 5, 6]], [('x', [10, 20]), ('y', ['u', 'v', 'w'])]])
+    case('a scalar', lambda: [3])
+    return out
+
+
 def sc_axes_from(P):
     """Axes.from_shape / from_arrays / from_dict called directly"""
     out = []
@@ -1524,7 +1686,10 @@ SCENARIOS = {
     'dimarray.dataset.Dataset._rbinary_op': (('C14',), sc_ds_ops(None, '_rbinary_op')),
     'dimarray.dataset.Dataset._unary_op': (('C14',), sc_ds_ops(None, '_unary_op')),
     'dimarray.dataset.Dataset._apply_dimarray_axis': (('C14',), sc_ds_apply),
+    'dimarray.core.dimarraycls.DimArray.__init__': (('C05',), sc_dimarray_init),
     'dimarray.core.axes.Axis.set': (('C13', 'C05'), sc_axis_set),
+    'dimarray.core.bases.AbstractHasAxes._set_dims': (('C05', 'C13'), sc_set_dims(None, 'array')),
+    'dimarray.dataset.Dataset.dims.setter': (('C05', 'C13'), sc_set_dims(None, 'dataset')),
     'dimarray.dataset.Dataset.set_axis': (('C13', 'C05'), sc_set_axis(None, 'dataset')),
     'dimarray.core.dimarraycls.DimArray.set_axis': (('C05', 'C13'), sc_set_axis(None, 'array')),
     'dimarray.core.operation.operation': (('C04',), sc_operation),
